@@ -45,3 +45,157 @@ pub fn hexs(b: &[u8]) -> String {
         crate::json::hex(b)
     }
 }
+
+// ------------------------------------------------------------------ values that can be serialised once
+
+/// A sequence backed by a one-shot source (an iterator moved out of a `RefCell<Option<..>>`, the usual
+/// way to serialise an iterator): the first `serialize` call emits it, a second one fails.
+pub struct OneShot(pub std::cell::RefCell<Option<Vec<u16>>>);
+impl serde::Serialize for OneShot {
+    fn serialize<S: serde::Serializer>(&self, s: S) -> Result<S::Ok, S::Error> {
+        match self.0.borrow_mut().take() {
+            Some(v) => s.collect_seq(v.into_iter()),
+            None => Err(<S::Error as serde::ser::Error>::custom("value was already serialised once")),
+        }
+    }
+}
+/// A frame that stamps itself with a sequence number each time it is serialised.
+pub struct Stamped(pub std::cell::Cell<u32>, pub u16);
+impl serde::Serialize for Stamped {
+    fn serialize<S: serde::Serializer>(&self, s: S) -> Result<S::Ok, S::Error> {
+        use serde::ser::SerializeTuple;
+        let n = self.0.get();
+        self.0.set(n + 1);
+        let mut t = s.serialize_tuple(2)?;
+        t.serialize_element(&n)?;
+        t.serialize_element(&self.1)?;
+        t.end()
+    }
+}
+
+/// Every public serialising entry point on a fresh one-shot / stamped value: each must deliver the framing of the
+/// encoding that the unbounded reference (`to_allocvec` on a fresh value) delivers - i.e. behave the same for
+/// every storage - and a slice of sufficient capacity must succeed.  Violations are reported as
+/// `<prop>:impure-value-differs:<entry point>`.
+pub fn impure_values_lane(t: &mut crate::run::Tctx, prop: &str) {
+    use crate::mem::catch;
+    use crate::refs::cobs_encode;
+    use crate::run::kv;
+    let c32 = crc::Crc::<u32>::new(&crc::CRC_32_ISCSI);
+    let n = t.cfg.scale(2, 200, 2000);
+    for _ in 0..n {
+        if t.cfg.expired() {
+            break;
+        }
+        let items: Vec<u16> = (0..t.rng.range(0, 5)).map(|_| crate::gen::gen_uint(&mut t.rng, 16) as u16).collect();
+        let payload = crate::gen::gen_uint(&mut t.rng, 16) as u16;
+        for which in 0..2 {
+            let plain: Vec<u8> = if which == 0 {
+                crate::spec::encode(&crate::model::Val::Seq(items.iter().map(|x| crate::model::Val::U16(*x)).collect()))
+            } else {
+                crate::spec::encode(&crate::model::Val::Tuple(vec![crate::model::Val::U32(0), crate::model::Val::U16(payload)]))
+            };
+            let mut cobs = cobs_encode(&plain);
+            cobs.push(0);
+            let mut crc = plain.clone();
+            crc.extend_from_slice(&c32.checksum(&plain).to_le_bytes());
+            let l = plain.len();
+            macro_rules! fresh {
+                () => {{
+                    enum Either {
+                        A(OneShot),
+                        B(Stamped),
+                    }
+                    impl serde::Serialize for Either {
+                        fn serialize<S: serde::Serializer>(&self, s: S) -> Result<S::Ok, S::Error> {
+                            match self {
+                                Either::A(x) => x.serialize(s),
+                                Either::B(x) => x.serialize(s),
+                            }
+                        }
+                    }
+                    if which == 0 {
+                        Either::A(OneShot(std::cell::RefCell::new(Some(items.clone()))))
+                    } else {
+                        Either::B(Stamped(std::cell::Cell::new(0), payload))
+                    }
+                }};
+            }
+            let mut results: Vec<(&str, Result<postcard::Result<Vec<u8>>, String>, &Vec<u8>)> = Vec::new();
+            results.push(("to_allocvec", catch(|| postcard::to_allocvec(&fresh!())), &plain));
+            results.push(("to_stdvec", catch(|| postcard::to_stdvec(&fresh!())), &plain));
+            results.push(("to_extend", catch(|| postcard::to_extend(&fresh!(), Vec::new())), &plain));
+            results.push(("to_io", catch(|| postcard::to_io(&fresh!(), Vec::new())), &plain));
+            results.push(("to_vec<32>", catch(|| postcard::to_vec::<_, 32>(&fresh!()).map(|v| v.to_vec())), &plain));
+            for extra in [0usize, 3] {
+                results.push((
+                    if extra == 0 { "to_slice(exact)" } else { "to_slice(+3)" },
+                    catch(|| {
+                        let mut b = vec![0u8; l + extra];
+                        postcard::to_slice(&fresh!(), &mut b).map(|s| s.to_vec())
+                    }),
+                    &plain,
+                ));
+            }
+            results.push((
+                "serialize_with_flavor(Slice)",
+                catch(|| {
+                    let mut b = vec![0u8; l + 1];
+                    postcard::serialize_with_flavor(&fresh!(), postcard::ser_flavors::Slice::new(&mut b)).map(|s| s.to_vec())
+                }),
+                &plain,
+            ));
+            results.push(("to_allocvec_cobs", catch(|| postcard::to_allocvec_cobs(&fresh!())), &cobs));
+            results.push(("to_stdvec_cobs", catch(|| postcard::to_stdvec_cobs(&fresh!())), &cobs));
+            results.push(("to_vec_cobs<40>", catch(|| postcard::to_vec_cobs::<_, 40>(&fresh!()).map(|v| v.to_vec())), &cobs));
+            results.push((
+                "to_slice_cobs(exact)",
+                catch(|| {
+                    let mut b = vec![0u8; cobs.len()];
+                    postcard::to_slice_cobs(&fresh!(), &mut b).map(|s| s.to_vec())
+                }),
+                &cobs,
+            ));
+            results.push(("to_allocvec_crc32", catch(|| postcard::to_allocvec_crc32(&fresh!(), c32.digest())), &crc));
+            results.push(("to_stdvec_crc32", catch(|| postcard::to_stdvec_crc32(&fresh!(), c32.digest())), &crc));
+            results.push(("to_vec_crc32<40>", catch(|| postcard::to_vec_crc32::<_, 40>(&fresh!(), c32.digest()).map(|v| v.to_vec())), &crc));
+            results.push((
+                "to_slice_crc32(exact)",
+                catch(|| {
+                    let mut b = vec![0u8; crc.len()];
+                    postcard::to_slice_crc32(&fresh!(), &mut b, c32.digest()).map(|s| s.to_vec())
+                }),
+                &crc,
+            ));
+            t.st.count("impure_value_cases");
+            for (entry, r, want) in results {
+                t.st.eval();
+                match r {
+                    Ok(Ok(b)) if b == **want => {}
+                    other => {
+                        t.st.violation(
+                            &format!("{}:impure-value-differs:{}", prop, entry),
+                            format!(
+                                "{} of a fresh {} gave {:?}, expected {} (a value whose Serialize impl is not idempotent must be serialised once, whatever the storage)",
+                                entry,
+                                if which == 0 { "one-shot sequence" } else { "self-stamping frame" },
+                                other.map(|r| r.map(|b| hexs(&b)).map_err(|e| err_label(&e))),
+                                hexs(want)
+                            ),
+                            vec![kv("kind", "impure"), kv("entry", entry)],
+                        );
+                        return;
+                    }
+                }
+            }
+            // the size counter on its own fresh value
+            match catch(|| postcard::experimental::serialized_size(&fresh!())) {
+                Ok(Ok(k)) if k == l => {}
+                other => {
+                    t.st.violation(&format!("{}:impure-value-differs:serialized_size", prop), format!("serialized_size of a fresh impure value gave {:?}, expected {}", other.map(|r| r.map_err(|e| err_label(&e))), l), vec![kv("kind", "impure"), kv("entry", "serialized_size")]);
+                    return;
+                }
+            }
+        }
+    }
+}
